@@ -151,6 +151,24 @@ def gen_extra(ctx):
             add(case('video', 'BGR', nn, nn, [xf('resize', 1, 1, True)]))
             add(case('util', 'BGR', nn, 2 * nn, [xf('maxsize', 2, 4, True)]))
 
+    # float-hazard pairs: side * (bound / side) computed in floats lands a hair below the integer bound and int() truncates
+    # it to bound - 1 (about 4 % of all pairs); only the final clamp to the bounds keeps the size laws - exercise exactly
+    # those pairs with the hazardous ratio dominating, both sides short (minsize) / both sides long (maxsize, resize)
+    hz = [(sd, bd) for sd in range(1, 34 if q else 80) for bd in range(1, 90 if q else 260)
+          if sd != bd and int(sd * (bd / sd)) != bd]
+    if q:
+        r.shuffle(hz)
+        hz = sorted(hz[:70])
+    for sd, bd in hz:
+        other = bd - 1 if bd > sd else bd + 1          # the other bound gives the non-dominating ratio
+        if other < 1 or (bd > sd and other <= sd):
+            continue
+        for (w, h, W, H) in ((sd, sd, bd, other), (sd, sd, other, bd)):
+            for (site, act) in (('util', 'minsize'), ('util', 'maxsize'), ('video', 'maxsize'), ('video', 'resize')):
+                if (act == 'minsize') != (bd > sd):
+                    continue
+                add(case(site, 'BGR', w, h, [xf(act, W, H, True)]))
+
     # --- chains with arbitrary parameters ---------------------------------------------------------------------------------
     def rand_xf(w, h, small):
         k = r.random()
